@@ -146,7 +146,7 @@ class Stairs:
         new_instance._data = values.to_frame("value")
         new_instance._valid_deltas = False
         new_instance._valid_values = True
-        return new_instance
+        return new_instance._remove_redundant_step_points()
 
     def _has_na(self) -> bool | np.array:
         return np.isnan(self._data.values).any() or np.isnan(self.initial_value)
